@@ -105,19 +105,23 @@ Section FChainExec.
     - apply (exec_filt cfg parse_float regex_ok input p i rest ps toks cps b Hs Hin).
   Qed.
 
-  Lemma exec_fsteps input l : forall p ps toks cps b, forallb fstep_ok l = true -> skipn p input = render_fsteps l ->
+  Lemma exec_fsteps_tail input l tail : forall p ps toks cps b, forallb fstep_ok l = true -> skipn p input = render_fsteps l ++ tail ->
     exists cps' b', execute (fsteps_tokens p l ++ toks) input cps b (mk ps) =
                     execute toks input cps' b' (mk (ps ++ map (fun s => INode (fnode_of s)) l)).
   Proof.
     induction l as [|s r IH]; intros p ps toks cps b Hs Hin.
     - exists cps, b. cbn [fsteps_tokens app map]. rewrite app_nil_r. reflexivity.
     - cbn [forallb] in Hs. apply andb_true_iff in Hs. destruct Hs as [H1 H2].
-      unfold render_fsteps in Hin. cbn [flat_map] in Hin. cbn [fsteps_tokens]. rewrite <- app_assoc.
+      unfold render_fsteps in Hin. cbn [flat_map] in Hin. rewrite <- app_assoc in Hin. cbn [fsteps_tokens]. rewrite <- app_assoc.
       destruct (exec_fstep input p s ps (fsteps_tokens (p + List.length (render_fstep s)) r ++ toks) cps b _ H1 Hin) as (c1 & b1 & E1).
       rewrite E1.
       destruct (IH (p + List.length (render_fstep s))%nat (ps ++ [INode (fnode_of s)]) toks c1 b1 H2 (skipn_next input p _ _ Hin)) as (cps' & b' & E).
       exists cps', b'. rewrite E. cbn [map]. rewrite <- app_assoc. reflexivity.
   Qed.
+  Lemma exec_fsteps input l : forall p ps toks cps b, forallb fstep_ok l = true -> skipn p input = render_fsteps l ->
+    exists cps' b', execute (fsteps_tokens p l ++ toks) input cps b (mk ps) =
+                    execute toks input cps' b' (mk (ps ++ map (fun s => INode (fnode_of s)) l)).
+  Proof. intros p ps toks cps b Hs Hin. apply (exec_fsteps_tail input l [] p ps toks cps b Hs). rewrite app_nil_r. exact Hin. Qed.
 
   Lemma fnode_not_agg root x : chain_step (AOk root) (INode (fnode_of x)) = AOk (append_deep root (fnode_of x)).
   Proof. destruct x as [y|i]; [apply (rpre_not_agg cfg)|reflexivity]. Qed.
